@@ -19,6 +19,8 @@ struct g16_ghost {
 	_Bool fail;                               /* a left link with an obsolete algorithm has been handed out */
 	_Bool na;                                 /* a left link without imprint has been handed out */
 	_Bool last_left;                          /* direction of the link handed out last */
+	_Bool has_imprint;                        /* (audit builderY) the link handed out last has an imprint: decides the pointer value of g16_link.imprint in the replaced contract */
+	size_t lefts;                             /* (audit builderY) number of LEFT links handed out so far: lets the harness tell 'at the first left link' from 'at a later one' */
 } g16;
 KSI_HashChainLink g16_link;
 KSI_LIST(KSI_HashChainLink) g16_list;
@@ -47,7 +49,7 @@ static int g16_elementAt(KSI_LIST(KSI_HashChainLink) *l, size_t pos, KSI_HashCha
 		if (!has) g.na = 1;
 		else if (spec_alg_obsolete_rule_fails(g16_status[alg] & 3)) g.fail = 1;
 	}
-	g.last_left = left; g.calls++;
+	g.last_left = left; g.calls++; if (left) g.lefts++; g.has_imprint = has;
 	g16 = g;
 	*o = &g16_link;
 	return KSI_OK;
@@ -55,7 +57,7 @@ static int g16_elementAt(KSI_LIST(KSI_HashChainLink) *l, size_t pos, KSI_HashCha
 static void g16_world_init(void) {
 	vr_world_init();
 	g16_list.length = g16_length; g16_list.elementAt = g16_elementAt;
-	g16_len = nondet_size() & G16_MAX_LIST; g16.calls = 0; g16.fail = 0; g16.na = 0; g16.last_left = 0;
+	g16_len = nondet_size() & G16_MAX_LIST; g16.calls = 0; g16.fail = 0; g16.na = 0; g16.last_left = 0; g16.lefts = 0; g16.has_imprint = 1;
 	g16_link.ctx = VR_CTX; g16_link.isLeft = 0; g16_link.levelCorrection = NULL; g16_link.legacyId = NULL; g16_link.metaData = NULL;
 	g16_link.imprint = &g_vr_h[VR_H_LINK];
 	g_vr_cal.hashChain = VR_OPT(&g16_list);
